@@ -1,9 +1,10 @@
 (* Properties/C04.v — Size equals encoded length; append-marshal leaves the prefix intact.
-   Only statements, each closed by `exact <lemma>`; proofs are in Proofs/CodecSize.v.
+   Only statements, each closed by `exact <lemma>`; proofs are in Proofs/CodecSize.v and Proofs/SizeProgProofs.v.
    The models: Codec.msg_size (features/fastreflection/proto_size.go), Codec.emit (proto_marshal.go, the bytes the
    back-filled buffer receives), Codec.pulsar_marshal (make([]byte, size) filled from the back: a too-small
    buffer is a Panic, a too-large one leaves zero padding), Extra.pulsar_marshal_append. *)
-From CP Require Import Extra CodecSize.
+From CP Require Import Extra CodecSize SizeProg.
+From CP Require SizeProgProofs.
 Local Open Scope N_scope.
 
 (* For every well-formed schema, every message type, EVERY value (well-typed or not; nil and empty
@@ -59,4 +60,34 @@ Example size_example :
   wf ex_schema = true /\ msg_size ex_schema 0 ex_value = 50 /\
   pulsar_marshal ex_schema true 0 ex_value = Ok (emit ex_schema true 0 ex_value) /\
   length (emit ex_schema true 0 ex_value) = 50%nat.
+Proof. vm_compute. repeat split; reflexivity. Qed.
+
+(* Translator tie (Model/SizeProg.v): the program the size template emits for a message type, [canon_size] (the Go
+   runner translates the body of every generated size closure into this syntax and the driver compares it with
+   canon_size syntactically), run by the SizeProg interpreter on any well-typed value of any well-formed schema,
+   returns exactly Codec.msg_size. So the model msg_size is the meaning of the generated statements themselves. *)
+Theorem size_prog_correct : SizeProg.size_prog_correct_stmt.
+Proof. exact SizeProgProofs.size_prog_correct. Qed.
+
+(* non-vacuity: a map of messages holding a nil value, a map with bytes values and negative int32 keys, two oneofs
+   (one holding a wrapper with a nil message, one an enum of value -1; the int32 member of the first is not set),
+   a packed and an unpacked list, unknown bytes *)
+Definition sp_schema : schema :=
+  [ {| m_fields := [ {| f_num := 1; f_ty := TScalar KSint32; f_shape := Singular |};
+                     {| f_num := 2048; f_ty := TMsg 1; f_shape := MapOf KString |};
+                     {| f_num := 3; f_ty := TScalar KInt32; f_shape := Rep true |};
+                     {| f_num := 536870911; f_ty := TMsg 1; f_shape := Member 0 |};
+                     {| f_num := 5; f_ty := TScalar KString; f_shape := Rep false |};
+                     {| f_num := 6; f_ty := TScalar KInt32; f_shape := Member 0 |};
+                     {| f_num := 7; f_ty := TScalar KBytes; f_shape := MapOf KInt32 |};
+                     {| f_num := 8; f_ty := TScalar KEnum; f_shape := Member 1 |} ];
+       m_oneofs := 2; m_impl := Pulsar |};
+    {| m_fields := [ {| f_num := 1; f_ty := TScalar KString; f_shape := Singular |} ]; m_oneofs := 0; m_impl := Pulsar |} ].
+Definition sp_value : val :=
+  VMsg [ VInt (-3); VMap [ (VBytes [x6b], VNil); (VBytes [x61], VMsg [VBytes [x68; x69]] [x08; x01]) ];
+         VList [VInt 1; VInt (-1); VInt 300]; VSome VNil; VList [VBytes [x61; x62]; VBytes []]; VNil;
+         VMap [ (VInt (-7), VBytes [x01; x02; x03]) ]; VSome (VInt (-1)) ] [xf8; x01; x07].
+Example size_prog_example :
+  wf sp_schema = true /\ wt_msg sp_schema 0 sp_value = true /\
+  run_size sp_schema 0 (canon_size sp_schema 0) sp_value = Some 85 /\ msg_size sp_schema 0 sp_value = 85.
 Proof. vm_compute. repeat split; reflexivity. Qed.
